@@ -122,7 +122,11 @@ def main(argv=None):
     gen_evals = ctx.evaluations
     # 3. enumerated / exhaustive / fuzz parts
     if hasattr(prop, "extra"):
-        prop.extra(ctx, a.tier, seed)
+        try:
+            prop.extra(ctx, a.tier, seed)
+        except Violation as v:
+            ctx.record(v.bucket, dict(enumerated_part=True), v.msg)
+            ctx.buckets[v.bucket]["noshrink"] = True
 
     # 4. generator health (quick tier: the classes the property names must occur)
     health = []
